@@ -67,7 +67,8 @@ def puddle_case(text_units, train_units, window, byfreq, nfolds, family):
 def dibs_case(rng, family):
     fam = rng.choice(['ascii', 'multi', 'ipa', 'sepfrag'])
     phones = sl.PHONES[fam][:rng.randint(2, 6)]
-    sep = rng.choice([(' ', ';esyll', ';eword'), ('_', ';esyll', ';eword'), (' ', None, ';eword'), ('_', '=', '@@')])
+    sep = rng.choice([(' ', ';esyll', ';eword'), ('_', ';esyll', ';eword'), (' ', None, ';eword'), ('_', '=', '@@'),
+                      ('_', None, ' '), ('_', '=', ';e w'), ('_', None, 'w')])      # a word separator with a space, or spelled by units
     level = rng.choice(['phone', 'syllable'])
     if sep[1] is None:
         level = 'phone'
